@@ -34,7 +34,7 @@ def gen_deps(P):
     deps = {os.path.basename(f) for f in coq_closure(P["coq_files"]) if f.startswith("Gen/")}
     checks = {c for _, _, cs in P["runs"] for c in cs}
     if checks & PARSE_CHECKS:
-        deps |= {"LexTable.v", "LrTables.v", "ParseActions.v"}
+        deps |= {"LexTable.v", "LrTables.v", "ParseActions.v", "JavadocRe.v"}
     if any(c.startswith("corr_") and c not in NO_VALIDATION_MODEL for c in checks) or \
             any(c.startswith("spec_C0") or c in ("spec_C10", "spec_C17_refs") for c in checks):
         deps |= {"ValTables.v", "Builtins.v"}
